@@ -69,6 +69,8 @@ type FuncContract struct {
 	// filled by generator
 	Captures   [][2]string // closures: captured variables (name, type)
 	ParamsDecl []string    // the contract's own names for receiver and parameters, by position (optional)
+	ParamsPinned bool      // the header carries params (...), possibly empty
+	ResultsPinned bool     // the header carries returns (...)
 	ParamNames []string // receiver first
 	ParamTypes []string
 	ResultTypes []string
@@ -171,6 +173,7 @@ func parseContractFile(path string, pc *PkgContracts) error {
 			if j := strings.Index(rest, " returns "); j >= 0 {
 				r := strings.TrimSpace(rest[j+9:])
 				r = strings.Trim(r, "()")
+				cur.ResultsPinned = true
 				for _, x := range strings.Split(r, ",") {
 					cur.Results = append(cur.Results, strings.TrimSpace(x))
 				}
@@ -194,6 +197,7 @@ func parseContractFile(path string, pc *PkgContracts) error {
 				// `func (*T).M params (f, buf, n)`: the names this contract uses for the receiver and the parameters, by
 				// position, so that renaming a parameter in the code does not detach the contract
 				c := strings.Trim(strings.TrimSpace(rest[j+8:]), "()")
+				cur.ParamsPinned = true
 				for _, x := range strings.Split(c, ",") {
 					if x = strings.TrimSpace(x); x != "" {
 						cur.ParamsDecl = append(cur.ParamsDecl, x)
@@ -540,6 +544,52 @@ func loadPkgContracts(repo, rel, importPath string) (*PkgContracts, []*ast.File,
 	return pc, files, fset, nil
 }
 
+// closureRebind: contracts on function literals that moved to another ordinal (package path + "." + contract name ->
+// the name go/ssa gives the literal now).
+var closureRebind = map[string]string{}
+
+// topFuncLits lists the function literals of a function in go/ssa's numbering: source order, nested ones not counted.
+func topFuncLits(fd *ast.FuncDecl) []*ast.FuncLit {
+	var lits []*ast.FuncLit
+	ast.Inspect(fd.Body, func(nd ast.Node) bool {
+		if fl, ok := nd.(*ast.FuncLit); ok {
+			lits = append(lits, fl)
+			return false
+		}
+		return true
+	})
+	return lits
+}
+
+func closureArityOK(l *ast.FuncLit, fc *FuncContract) bool {
+	pn, _ := fieldListNames(l.Type.Params, "a")
+	rn, _ := fieldListNames(l.Type.Results, "ret")
+	if fc.ParamsPinned && len(pn) != len(fc.ParamsDecl) {
+		return false
+	}
+	if fc.ResultsPinned && len(rn) != len(fc.Results) {
+		return false
+	}
+	return true
+}
+
+// closureMentions: every variable the contract says the literal captures is used in its body.
+func closureMentions(l *ast.FuncLit, fc *FuncContract) bool {
+	used := map[string]bool{}
+	ast.Inspect(l.Body, func(nd ast.Node) bool {
+		if id, ok := nd.(*ast.Ident); ok {
+			used[id.Name] = true
+		}
+		return true
+	})
+	for _, c := range fc.Captures {
+		if !used[c[0]] {
+			return false
+		}
+	}
+	return true
+}
+
 func fieldListNames(fl *ast.FieldList, prefix string) (names, typs []string) {
 	if fl == nil {
 		return
@@ -660,17 +710,35 @@ func genOverlay(pc *PkgContracts, files []*ast.File, specDir string) (string, er
 				n, err := strconv.Atoi(fc.QualName[k+1:])
 				var lit *ast.FuncLit
 				if fd != nil && err == nil && fd.Body != nil {
-					cnt := 0
-					ast.Inspect(fd.Body, func(nd ast.Node) bool {
-						if fl, ok := nd.(*ast.FuncLit); ok {
-							cnt++
-							if cnt == n {
-								lit = fl
+					lits := topFuncLits(fd)
+					if n >= 1 && n <= len(lits) && closureArityOK(lits[n-1], fc) {
+						lit = lits[n-1]
+					} else {
+						// the ordinal moved (a function literal was added or removed before this one): the contract follows
+						// the one literal of the same shape that no other contract holds by its ordinal
+						claimed := map[int]bool{}
+						for _, o := range pc.Funcs {
+							if o != fc && strings.HasPrefix(o.QualName, fc.QualName[:k]+"$") {
+								if m, e := strconv.Atoi(o.QualName[k+1:]); e == nil && m >= 1 && m <= len(lits) && closureArityOK(lits[m-1], o) {
+									claimed[m] = true
+								}
 							}
-							return false
 						}
-						return true
-					})
+						found := 0
+						for m, l := range lits {
+							if !claimed[m+1] && closureArityOK(l, fc) && closureMentions(l, fc) {
+								if found != 0 {
+									found = -1
+									break
+								}
+								found = m + 1
+							}
+						}
+						if found > 0 && (fc.ParamsPinned || fc.ResultsPinned) {
+							lit = lits[found-1]
+							closureRebind[pc.Path+"."+fc.QualName] = fmt.Sprintf("%s$%d", fc.QualName[:k], found)
+						}
+					}
 				}
 				if lit == nil {
 					pc.BindErrors = append(pc.BindErrors, fmt.Sprintf("bind:%s.%s: no such function literal in package source", pc.Name, fc.QualName))
